@@ -55,7 +55,7 @@ def check_repair(ctx, runs=None, arb=None):
     """Runs the repair correspondence. Returns a dict for the caller's evidence (also stored in ctx.repair)."""
     quick = ctx.tier == "quick"
     runs = runs if runs is not None else (24 if quick else 160)
-    arb = arb if arb is not None else (600 if quick else 6000)
+    arb = arb if arb is not None else (900 if quick else 9000)
     ok, log, where = fw.coq_build(["recover"])
     ctx.oblige("full .vo build of coq/recover (make)", ok)
     if not ok:
@@ -69,11 +69,12 @@ def check_repair(ctx, runs=None, arb=None):
         return None
     assumptions = dict(closed_under_global_context=pc["closed"], axioms=pc["axioms"], file=pc["file"], theorems=len(pc["theorems"]))
 
-    cases = ctx.harness("fixprobe", ["-runs", str(runs), "-arb", str(arb), "-probe-every", "4" if quick else "2"],
+    cases = ctx.harness("fixprobe", ["-runs", str(runs), "-arb", str(arb), "-probe-every", "4" if quick else "2",
+                                     "-entry", "80" if quick else "800"],
                         out_name="repair_cases.jsonl", timeout=1500)
     if cases is None:
         return None
-    died = [c for c in cases if c["kind"] in ("child-died", "run-hang")]
+    died = [c for c in cases if c["kind"] in ("child-died", "run-hang", "probe-error")]
     cases = [c for c in cases if c.get("coq")]
     terms = [c["coq"] for c in cases]
     results, infos = fw.eval_cases(os.path.join(ctx.work, "repair"), "recover", HEADER, "case", "check_case", "case_ok", terms)
@@ -146,8 +147,9 @@ def check_repair(ctx, runs=None, arb=None):
 
     reach = [c for c in cases if c["kind"] == "reachable"]
     probed = [c for c in reach if c["dist"].get("probed")]
+    arbent = [c for c in cases if c["kind"] == "arb-entry"]
     mix = {}
-    for c in reach + [c for c in cases if c["kind"] == "arb-plan"]:
+    for c in reach + [c for c in cases if c["kind"] in ("arb-plan", "arb-entry")]:
         for k, v in (c["dist"].get("status_mix") or {}).items():
             key = ("reachable " if c["kind"] == "reachable" else "arbitrary ") + k
             mix[key] = mix.get(key, 0) + v
@@ -162,6 +164,8 @@ def check_repair(ctx, runs=None, arb=None):
         branches_not_hit=missing,
         reachable_images=len(reach), real_runs=runs,
         entry_points_observed_on_real_recoveries=fw.histogram(c["dist"]["probed"] for c in probed),
+        entry_points_observed_on_recoveries_of_arbitrary_images=fw.histogram(
+            "%s (plan %s after fixPlan)" % (c["dist"]["probed"] or "none seen", c["observed"]["plan_status_after"]) for c in arbent),
         recoveries_leaving_something_running=sum(1 for c in probed if (c["observed"].get("recovery") or {}).get("running_left", 0) > 0),
         recoveries_hanging=sum(1 for c in probed if (c["observed"].get("recovery") or {}).get("hang")),
         crash_point_kinds=fw.histogram(c["dist"]["write"] for c in reach),
